@@ -157,6 +157,7 @@ def render(f):
     guard = ',\n  '.join(f'({c}, {l}, {k}, {p}, {lst(o)})' for c, l, k, p, o in f['guard_rows'])
     unans = ', '.join(f'({k}, {j}, {n})' for k, j, n in f['unanswered_rows'])
     return (
+        'import Aiorpcx.C13.IntRows\n'
         '/-! GENERATED by tools/facts/c13.py by RUNNING the current tree - do not edit. -/\n'
         'namespace Aiorpcx.Facts.C13\n'
         f'/-- `SessionBase.initial_concurrent` -/\n'
@@ -164,13 +165,12 @@ def render(f):
         f'/-- `max_concurrent` of the outgoing limiter of a fresh client `RPCSession` -/\n'
         f'def outgoingInitial : Nat := {int(f["outgoing_initial"])}\n'
         '/-- the real `Concurrency` driven by scripted workers, one row per operation sequence.  A\n'
-        '    row is a list of small integers packed into one number (base-64 digits, least\n'
-        '    significant first, value = digit - 2, a final digit 1 terminates the row):\n'
+        '    row is a flat list of integers:\n'
         '    initial limit, #ops, (op code, argument)* with 0 enter i / 1 exit i / 2 cancel waiter i /\n'
         '    3 set_target n; then per operation: #events, (kind, id)* with 0 entered / 1 refused /\n'
         '    2 cancelled / 3 not applicable; #holders, holders sorted; #queue, queue in arrival\n'
         '    order; max_concurrent -/\n'
-        'def limiterTable : List Nat := '
+        'def limiterTable : List (List Int) := '
         + lp.lean_limiter_rows(f['limiter_rows']) + '\n'
         '/-- bursts through real sessions: (0 RPCSession / 1 MessageSession, initial_concurrent,\n'
         '    messages, peak handlers running at once, order in which handlers started) -/\n'
